@@ -97,6 +97,8 @@ def parse_fx(s):
             out.append({"kind": "updcc", "name": f[1], "fins": [] if f[2] == "fins=-" else f[2][5:].split("+"), "rest": f[3][5:], "out": f[4]})
         elif f[0] == "ev":
             out.append({"kind": "ev", "code": f[1], "obj": f[2]})
+        elif f[0] == "order":
+            out.append({"kind": "order", "names": [] if f[1:] == ["-"] else (f[1].split(",") if len(f) > 1 else [])})
         elif f[0] == "getnode":
             out.append({"kind": "getnode", "node": f[1], "out": f[2]})
         else:
